@@ -333,7 +333,7 @@ pub fn run(cfg: &Cfg) -> i32 {
     for (i, o) in ops.iter().enumerate() {
         if let Op::Eval(0, _) | Op::Step(0, _) = o {
             // definitions shared by both copies get the full depth (shadowing / caching across copies)
-            let shared_def = matches!(o, Op::Eval(0, 10) | Op::Eval(0, 14) | Op::Eval(0, 0));
+            let shared_def = matches!(o, Op::Eval(0, 10)) || (!quick && matches!(o, Op::Eval(0, 14) | Op::Eval(0, 0)));
             prefixes.push((vec![i, clone_ab], if shared_def { depth } else { depth - 1 }));
             for (j, o2) in ops.iter().enumerate() {
                 if let Op::Eval(0, _) = o2 {
@@ -369,7 +369,7 @@ pub fn run(cfg: &Cfg) -> i32 {
     let mut repl_runs = 0u64;
     {
         use crate::repl_leg::*;
-        let setup: Vec<&str> = if quick { vec!["", "|12 34 56| var b", "[ 1 2 ] var v 5 var g", ": w 1 ; { 1 \"k\" } var m"] } else { vec!["", "|12 34 56| var b", "[ 1 2 ] var v", "5 var g", ": w 1 ;", "{ 1 \"k\" } var m", "late q : u q ;", "|12 34 56| var b [ 1 2 ] var v 5 var g : w 1 ; { 1 \"k\" } var m"] };
+        let setup: Vec<&str> = if quick { vec!["", "|12 34 56| var b [ 1 2 ] var v 5 var g", ": w 1 ; { 1 \"k\" } var m"] } else { vec!["", "|12 34 56| var b", "[ 1 2 ] var v", "5 var g", ": w 1 ;", "{ 1 \"k\" } var m", "late q : u q ;", "|12 34 56| var b [ 1 2 ] var v 5 var g : w 1 ; { 1 \"k\" } var m"] };
         let muts: Vec<&str> = if quick {
             vec!["|ff| b bitstr-append ! b", "b bitstr-not ! b", "3 v push ! v", "g 1 + ! g", ": w 2 ;", "m 2 \"j\" insert ! m", "7 8", "3 2 d2-resize 7 d2-color! 1 1 d2-data!"]
         } else {
